@@ -59,6 +59,22 @@ def run(rep):
         multi.append({'multi': ts, 'ops': ops})
         for i, t in enumerate(ts):
             solos.append({'multi': [t], 'ops': [[0] + o for o in per[i]]})
+    # targeted pairs: an instance that holds a complete word of its content model and passes its final check, THEN a second instance of the same
+    # type given the same child names with the first one placed by forward=1 (another branch / repetition of the content model): whatever the
+    # second one does alone it must do after the first
+    for t in types:
+        tree = g['templates'][t]
+        if '"C"' not in json.dumps(tree):
+            continue
+        ws = [w for w in rx.words(rx.of_tree(tree), rx.alphabet(tree), 3, 40) if 1 <= len(w) <= 3]
+        rng.shuffle(ws)
+        for w in ws[:12 if quick else 60]:
+            first = [['a', x] for x in w] + [['f', 0], ['s', 0]]          # 's' = to_string(): the user's path through _final_checks
+            second = [['w', w[0], 1]] + [['a', x] for x in w[1:]] + [['f', 0], ['s', 0]]
+            # the children themselves are made unchecked, so that to_string() speaks about THIS element's content only
+            multi.append({'multi': [t, t], 'ops': [[0] + o for o in first] + [[1] + o for o in second], 'unchecked_children': True})
+            solos.append({'multi': [t], 'ops': [[0] + o for o in first], 'unchecked_children': True})
+            solos.append({'multi': [t], 'ops': [[0] + o for o in second], 'unchecked_children': True})
     mo = impl.run_cases(multi)
     so = impl.run_cases(solos)
     si = 0
